@@ -630,19 +630,23 @@ brk("C12", "Matsubara 2D integral returned complex", "L3", _sub(
     BC, '        if matsubara:\n            integral = integral.real\n        return integral\n\n\nclass PowerLawSD', '        return integral\n\n\nclass PowerLawSD'))
 brk("C12", "eta_function skips the tail for the gaussian cutoff", "L4", _sub(
     BC, '''        if self.cutoff_type != "hard":
-            integral += _complex_integral(integrand,
-                                          a=self.cutoff,
-                                          b=np.inf,
-                                          epsrel=epsrel,
-                                          limit=subdiv_limit)
+            # integrate the tail in units of the cutoff frequency: the
+            # quadrature over a semi-infinite range is not scale covariant
+            integral += self.cutoff * _complex_integral(
+                lambda x: integrand(self.cutoff * x),
+                a=1.0,
+                b=np.inf,
+                epsrel=epsrel,
+                limit=subdiv_limit)
         if matsubara:
             integral = integral.real
         return -integral''', '''        if self.cutoff_type == "exponential":
-            integral += _complex_integral(integrand,
-                                          a=self.cutoff,
-                                          b=np.inf,
-                                          epsrel=epsrel,
-                                          limit=subdiv_limit)
+            integral += self.cutoff * _complex_integral(
+                lambda x: integrand(self.cutoff * x),
+                a=1.0,
+                b=np.inf,
+                epsrel=epsrel,
+                limit=subdiv_limit)
         if matsubara:
             integral = integral.real
         return -integral'''))
@@ -2356,3 +2360,32 @@ ok("C11", "GibbsTempo passes the number of steps as memory length explicitly", _
     TE, _GB_OLD, "                max_step=max_step,\n                max_mps_length=max_step,\n                config=self._backend_config)"))
 ok("C11", "GibbsTempo passes max_mps_length=None explicitly", _sub(
     TE, _GB_OLD, "                max_step=max_step,\n                max_mps_length=None,\n                config=self._backend_config)"))
+
+# ---------------------------------------- semi-infinite quadrature in units of the cutoff (C12 L9 / L4)
+_TAIL_NEW = """            integral += self.cutoff * _complex_integral(
+                lambda x: integrand(self.cutoff * x),
+                a=1.0,
+                b=np.inf,
+                epsrel=epsrel,
+                limit=subdiv_limit)
+"""
+brk("C12", "tail of the frequency integral handed to quad with the dimensional lower limit again", "L9", _sub(
+    BC, _TAIL_NEW, """            integral += _complex_integral(integrand,
+                                          a=self.cutoff,
+                                          b=np.inf,
+                                          epsrel=epsrel,
+                                          limit=subdiv_limit)
+""", count=2))
+brk("C12", "substitution w = cutoff * x without the factor cutoff", "L4", _sub(
+    BC, _TAIL_NEW, """            integral += _complex_integral(
+                lambda x: integrand(self.cutoff * x),
+                a=1.0,
+                b=np.inf,
+                epsrel=epsrel,
+                limit=subdiv_limit)
+""", count=2))
+ok("C12", "tail integral written with the factor on the right and positional limits", _sub(
+    BC, _TAIL_NEW, """            integral += _complex_integral(
+                lambda x: integrand(self.cutoff * x), 1.0, np.inf,
+                epsrel=epsrel, limit=subdiv_limit) * self.cutoff
+""", count=2))
